@@ -442,6 +442,16 @@ Theorem C04_set_json_nested :
 Proof. exact json_printed_nested. Qed.
 Print Assumptions C04_set_json_nested.
 
+Example C04_set_file_json_nonvacuous :
+  ex_rdr "/tmp/f" = (VStr (bs [108; 49; 10; 108; 50; 10]), true)
+  /\ parse_into_file2 ex_rdr (show_path2 esc_key "a" [PI "1" 1%Z; PI "0" 0%Z] (esc_val "/tmp/f")) []
+     = POk [("a", VList [VNull; VList [VStr (bs [108; 49; 10; 108; 50; 10])]])]
+  /\ empty_val2 ex_js = (false, ex_js) /\ ex_jdec ex_js = Some (VMap [("x", VList [VNum 1; VNull])], String.length ex_js)
+  /\ parse_json2 ex_jdec (show_path2 esc_key "a" [PI "0" 0%Z; PK "b"] ex_js) [("a", VList [VMap [("k", VNum 1)]])]
+     = POk [("a", VList [VMap [("k", VNum 1); ("b", VMap [("x", VList [VNum 1; VNull])])]])].
+Proof. exact file_json_nonvacuous. Qed.
+Print Assumptions C04_set_file_json_nonvacuous.
+
 Example C04_set_frame_grammar_nested_nonvacuous :
   show_path2 esc_key "a" ex2_path (esc_val "v,1") = "a[0][1][2].x\.y=v\,1"
   /\ Forall esc_pwf ex2_path /\ Forall pne ex2_path
